@@ -8,7 +8,7 @@
    witnesses in Proofs/C01ExamplesP.v (see docs/proofs-C01.md). *)
 From LC Require Import Lib.Bytes Lib.PathM Model.MountInfo Model.FsTree Model.Kernel Model.Layers
   Cases.LC Cases.C01 Proofs.MntTraceP Proofs.MntOrderP Proofs.MntNeededP Proofs.MntPostP
-  Proofs.C01P Proofs.C01HoldsP Proofs.C01ExamplesP.
+  Proofs.C01P Proofs.C01HoldsP Proofs.MntClearP Proofs.C01ExamplesP.
 Import LC LCS.
 
 (* the model's run IS a mount trace over the items of the chain read from disk: per layer the
@@ -76,8 +76,8 @@ Proof. exact mount_keeps_wf. Qed.
 Print Assumptions C01_keeps_wf.
 
 (* (d) 2: on every expected mountpoint the count is max 1 (count before) -- partial: needs "no
-   expected mountpoint below an rbind import's mountpoint" (witnesses: C01_refuted_1 with
-   kf = 1, and C01_holds_refuted_rbind_over_later with kf = 0) *)
+   expected mountpoint below an rbind import's mountpoint" (witnesses, both of class kf = 1:
+   C01_refuted_1, C01_refuted_1_later_import) *)
 Theorem C01_post_count_partial : forall cfg w e n um, plain_env e = true ->
   wf_table (ks_tab (wo_ks w)) = true ->
   rbind_clear cfg (chain cfg (wo_fs w) n) = true ->
@@ -86,6 +86,32 @@ Theorem C01_post_count_partial : forall cfg w e n um, plain_env e = true ->
              (ks_tab (wo_ks (v_after (mview cfg w e n um)))) = true.
 Proof. exact C01_post_count_partial_proof. Qed.
 Print Assumptions C01_post_count_partial.
+
+(* from known-finding class 1 to rbind_clear: no chain layer in class 1 (an rbind import strictly
+   above another import of the same layer) and build directories of different chain layers not
+   nested *)
+Theorem C01_kf_clear : forall cfg f n, is_abs (c_layers cfg) = true ->
+  chain_no_kf1 (chain cfg f n) = true -> builds_apart cfg (chain cfg f n) = true ->
+  rbind_clear cfg (chain cfg f n) = true.
+Proof. exact kf_clear. Qed.
+Print Assumptions C01_kf_clear.
+
+(* (d) 2 stated on the class *)
+Theorem C01_post_count_kf_partial : forall cfg w e n um, plain_env e = true ->
+  wf_table (ks_tab (wo_ks w)) = true ->
+  is_abs (c_layers cfg) = true ->
+  chain_no_kf1 (chain cfg (wo_fs w) n) = true ->
+  builds_apart cfg (chain cfg (wo_fs w) n) = true ->
+  v_res (mview cfg w e n um) = ROk ->
+  count_post cfg (chain cfg (wo_fs w) n) (ks_tab (wo_ks w))
+             (ks_tab (wo_ks (v_after (mview cfg w e n um)))) = true.
+Proof. exact C01_post_count_kf_partial_proof. Qed.
+Print Assumptions C01_post_count_kf_partial.
+
+(* kf c = 0 gives the class hypothesis for a mount from the initial world of the case *)
+Theorem C01_kf_zero_chain : forall c n, C01.kf c = 0%N -> chain_no_kf1 (chain (c_cfg c) (c_fs0 c) n) = true.
+Proof. exact kf_zero_chain. Qed.
+Print Assumptions C01_kf_zero_chain.
 
 (* (d) 3: mount_post itself -- partial: additionally what is mounted beforehand must be of the
    right kind/source (for mounts made by this run it is proved), expected mountpoints pairwise
@@ -103,6 +129,23 @@ Theorem C01_post_partial : forall cfg w e n um, plain_env e = true ->
     (ks_tab (wo_ks w)) (ks_tab (wo_ks (v_after (mview cfg w e n um)))) = true.
 Proof. exact C01_post_partial_proof. Qed.
 Print Assumptions C01_post_partial.
+
+(* the same on the class *)
+Theorem C01_post_kf_partial : forall cfg w e n um, plain_env e = true ->
+  wf_table (ks_tab (wo_ks w)) = true ->
+  is_abs (c_layers cfg) = true ->
+  chain_no_kf1 (chain cfg (wo_fs w) n) = true ->
+  builds_apart cfg (chain cfg (wo_fs w) n) = true ->
+  pre_right cfg (wo_fs w) (chain cfg (wo_fs w) n) (ks_tab (wo_ks w)) = true ->
+  nodup_targets cfg (chain cfg (wo_fs w) n) = true ->
+  nocomma_paths cfg (layers_on_disk cfg (wo_fs w)) (chain cfg (wo_fs w) n) = true ->
+  ids_ok (wo_ks w) = true ->
+  id_bound (wo_ks (v_after (mview cfg w e n um))) = true ->
+  v_res (mview cfg w e n um) = ROk ->
+  C01.mount_post cfg (wo_fs w) (layers_on_disk cfg (wo_fs w)) (chain cfg (wo_fs w) n)
+    (ks_tab (wo_ks w)) (ks_tab (wo_ks (v_after (mview cfg w e n um)))) = true.
+Proof. exact C01_post_kf_partial_proof. Qed.
+Print Assumptions C01_post_kf_partial.
 
 (* (e) a second mount from the resulting world issues no mount/umount call and leaves the kernel
    alone -- partial: needs "the first mount did not alter the layer definitions on disk"
@@ -173,24 +216,26 @@ Proof. exact C01_holds_partial_proof. Qed.
 Print Assumptions C01_holds_partial.
 
 (* ---- closed witnesses (vm_compute) *)
-(* known finding 1: a case of class kf = 1 on which the predicate fails *)
+(* known finding 1: cases of class kf = 1 on which the predicate fails -- an rbind import above an
+   EARLIER import, and above a LATER one (host submount stacked twice) *)
 Theorem C01_refuted_1 :
   C01.wf c_r = true /\ LC.corr c_r = true /\ C01.kf c_r = 1 /\ C01.spec c_r = false
   /\ rbind_clear ex_cfg (chain ex_cfg (wo_fs w_r) d1) = false
+  /\ chain_no_kf1 (chain ex_cfg (wo_fs w_r) d1) = false
   /\ v_res v_r = ROk
   /\ count_at (ks_tab (wo_ks (v_after v_r))) (bs "/b/layers/d1/build/mnt/sub") = 2%nat.
 Proof. exact C01_refuted_1_witness. Qed.
 Print Assumptions C01_refuted_1.
 
-(* C01_holds refuted with kf = 0: an rbind import above a LATER import *)
-Theorem C01_holds_refuted_later_import :
-  C01.wf c_q = true /\ LC.corr c_q = true /\ C01.kf c_q = 0 /\ C01.spec c_q = false
+Theorem C01_refuted_1_later_import :
+  C01.wf c_q = true /\ LC.corr c_q = true /\ C01.kf c_q = 1 /\ C01.spec c_q = false
+  /\ chain_no_kf1 (chain ex_cfg (wo_fs w_q) d1) = false
   /\ rbind_clear ex_cfg (chain ex_cfg (wo_fs w_q) d1) = false
   /\ v_res v_q = ROk
   /\ count_at (ks_tab (wo_ks w_q)) (bs "/b/layers/d1/build/mnt/sub") = 0%nat
   /\ count_at (ks_tab (wo_ks (v_after v_q))) (bs "/b/layers/d1/build/mnt/sub") = 2%nat.
-Proof. exact C01_holds_refuted_rbind_over_later. Qed.
-Print Assumptions C01_holds_refuted_later_import.
+Proof. exact C01_refuted_1_later_import_witness. Qed.
+Print Assumptions C01_refuted_1_later_import.
 
 (* C01_holds refuted with kf = 0: a pre-existing bind whose source path was mounted later *)
 Theorem C01_holds_refuted_later_source :
